@@ -1250,7 +1250,7 @@ def run_shard(shard, ctx):
               and not (m['method'] == 'correlation' and n_ch < 2)]
         for bi, bins in enumerate((None, [[0, 1]], [[1], [0]])):
             for pi, part in enumerate(_partitions(3)):
-                base = dict(sc, kind='movie', n=3, P=n_ch, nt=2, torder='asc', taxis=AXIS_ORDER[(bi + pi) % 8],
+                base = dict(sc, kind='movie', n=3, P=n_ch, nt=2, torder='asc' if pi % 2 else 'desc', taxis='small',
                             bins=bins, binrep='arrays', tcont='nd', part=part, naming='desc', container='nd',
                             extra='none', fill=0)
                 for mconf in mv:
